@@ -1121,6 +1121,7 @@ void	ADF_Database_Version(
 unsigned int 		file_index ;
 struct DISK_POINTER	block_offset ;
 struct	FILE_HEADER	file_header ;
+int			version_end ;
 
 if( (version == NULL) || (creation_date == NULL) ||
     (modification_date == NULL) ) {
@@ -1138,8 +1139,15 @@ ADFI_read_file_header( file_index, &file_header, error_return ) ;
 CHECK_ADF_ABORT( *error_return ) ;
 
 *error_return = NO_ERROR ;
-	/** Convert the "what" string into a C string **/
-ADFI_string_2_C_string( &file_header.what[4], (int)strcspn ( file_header.what, ">" ) - 4,
+	/** Convert the "what" string into a C string: the version ends at
+	    the '>'.  The field is not NUL terminated, so the search for it
+	    must stop with the field (a damaged file need not have it) **/
+for( version_end=0; version_end<WHAT_STRING_SIZE; version_end++ ) {
+   if( (file_header.what[version_end] == '>') ||
+       (file_header.what[version_end] == '\0') )
+      break ;
+   } /* end for */
+ADFI_string_2_C_string( &file_header.what[4], version_end - 4,
                         version, error_return ) ;
 CHECK_ADF_ABORT( *error_return ) ;
 
